@@ -157,6 +157,15 @@ pub fn judge(case: &Case, acc: &mut Acc) {
             if got != want {
                 viol!(acc, P, "encode-interleaving", case, "type field differs from the RFC 8489 §5 interleaving", format!("{want:#06x}"), format!("{got:#06x}"));
             }
+            // into the front of a longer buffer (a header laid out by hand): the first two bytes, nothing else
+            for n in [3usize, 4, 20] {
+                let mut longer = vec![0xA5u8; n];
+                let r = crate::common::guarded(|| mt.write_into(&mut longer));
+                if r.is_err() || longer[..2] != two || longer[2..].iter().any(|b| *b != 0xA5) {
+                    viol!(acc, P, "write_into-longer-destination", case, format!("MessageType::write_into a destination of {n} bytes does not put the type field into its first two bytes and leave the rest alone"), crate::refimpl::crypto::hex(&two), format!("{:?} {}", r.err().map(|p| p.message), crate::refimpl::crypto::hex(&longer)));
+                    break;
+                }
+            }
             if mt.to_bytes() != two {
                 viol!(acc, P, "to_bytes-vs-write_into", case, "to_bytes and write_into disagree", "equal", "different");
             }
